@@ -7,7 +7,7 @@ from .c02 import run_steps
 ID = 'C03'
 RULE = ('cases: ambiguous fragment sets over grammar base graphs under both matching conventions (unlabelled $, '
         'homopolymers via multipliers, several descriptors per atom, surplus descriptors, labels A/B, orders 1-2, '
-        'shared-atom descriptors, atomistic and coarse fragments) plus the dedicated-pair strings of C01 and the '
+        'shared-atom descriptors, atomistic and coarse fragments) plus the dedicated-pair strings of C01 (20 % from the classes sulfur-next-to-aromatic, lower-case quinoid, fused aromatic; identical descriptors on one hub atom) and the '
         'multi-level strings of C06 (every level). Oracle (invariant over output + templates): every fine edge '
         'whose end points have disjoint fragid carries bonding=(l,r), joins adjacent coarse nodes, (l,r) is '
         'compatible under an independent re-statement of the rule (kind, label and order digit; label and order '
